@@ -461,7 +461,7 @@ fn perturb(doc: &Node, at: usize, kind: u16) -> (Node, &'static str) {
         let me = *idx;
         *idx += 1;
         if me == at {
-            let k = kind % 20;
+            let k = kind % 21;
             if (k as usize) < reps.len() {
                 *label = reps[k as usize].0;
                 // skip the subtree's indices
@@ -539,6 +539,13 @@ fn perturb(doc: &Node, at: usize, kind: u16) -> (Node, &'static str) {
                     *label = "tagged-payload-scalar";
                     *idx += n.count() - 1;
                     return Node { anchor: None, tag: n.tag.clone(), kind: Kind::Scalar { value: "zz".into(), style: Style::Plain } };
+                }
+                // a null payload under the kept tag: for a newtype variant that is the payload
+                // `~` read by the variant's type, exactly as in `{Variant: ~}`
+                (_, 20) if n.tag.is_some() => {
+                    *label = "tagged-payload-null";
+                    *idx += n.count() - 1;
+                    return Node { anchor: None, tag: n.tag.clone(), kind: Kind::Scalar { value: "~".into(), style: Style::Plain } };
                 }
                 (_, 19) if n.tag.is_some() => {
                     *label = "tagged-payload-seq";
@@ -631,6 +638,48 @@ fn check_case(c: &Case) -> Outcome {
             c.ty
         ));
     }
+    // notation independence: `!Variant payload` and `{Variant: payload}` are two notations of one
+    // value ("all enum notations ... are honoured"): the payload is read by the variant's type in
+    // both, so both give the same value or both fail
+    {
+        fn to_map_notation(n: &Node, changed: &mut bool) -> Node {
+            let kind = match &n.kind {
+                Kind::Seq { flow, items } => Kind::Seq { flow: *flow, items: items.iter().map(|x| to_map_notation(x, changed)).collect() },
+                Kind::Map { flow, entries } => Kind::Map { flow: *flow, entries: entries.iter().map(|(k, v)| (to_map_notation(k, changed), to_map_notation(v, changed))).collect() },
+                k => k.clone(),
+            };
+            match (&n.tag, &kind) {
+                (Some(t), Kind::Scalar { value, .. }) if t.starts_with('!') && !t.starts_with("!!") && !value.is_empty() => {
+                    *changed = true;
+                    Node { anchor: None, tag: None, kind: Kind::Map { flow: true, entries: vec![(Node::plain(&t[1..]), Node { anchor: None, tag: None, kind })] } }
+                }
+                (Some(t), Kind::Seq { .. }) if t.starts_with('!') && !t.starts_with("!!") => {
+                    *changed = true;
+                    Node { anchor: None, tag: None, kind: Kind::Map { flow: true, entries: vec![(Node::plain(&t[1..]), Node { anchor: None, tag: None, kind })] } }
+                }
+                _ => Node { anchor: n.anchor.clone(), tag: n.tag.clone(), kind },
+            }
+        }
+        let mut changed = false;
+        let doc2 = to_map_notation(&c.doc, &mut changed);
+        // (judged on documents generated from a value of the type: on perturbed ones the two
+        // notations may fail - or be tolerated - in different ways)
+        if changed && (c.perturbation == "none" || c.perturbation == "no-op") {
+            let r2 = gdoc::render(&doc2, &c.layout);
+            if gdoc::selfcheck_render(&doc2, &c.layout, &r2.text).is_ok() {
+                let got2 = serde_saphyr::with_deserializer_from_str(&r2.text, |d| D(&c.ty).deserialize(d));
+                let same = match (&got, &got2) {
+                    (Ok(a), Ok(b)) => a == b,
+                    (Err(_), Err(_)) => true,
+                    _ => false,
+                };
+                if !same {
+                    let sh = |r: &Result<DV, serde_saphyr::Error>| match r { Ok(v) => format!("{v:?}"), Err(e) => format!("error: {}", e.without_snippet().to_string().lines().next().unwrap_or("")) };
+                    return Outcome::Fail(format!("enum notations disagree: tagged notation {text:?} gives {}, mapping notation {:?} gives {} (type {:?})", sh(&got), r2.text, sh(&got2), c.ty));
+                }
+            }
+        }
+    }
     // content left after the document: a flow collection or quoted scalar at the root ends where
     // it ends - a second root node behind it (without any marker) is surplus content, which the
     // single-document entry points must report whatever the first node is worth
@@ -700,7 +749,7 @@ impl Property for C05 {
     const ID: &'static str = "C05";
     type Case = Case;
     fn rule() -> String {
-        "cases = (run-time type description, document). Types from a schema grammar (bool / int / string / option / unit / sequence / tuple / tuple struct / newtype / map / struct with and without deny_unknown_fields / enum with all four variant kinds, depth <= 4); the document is first generated from the type and a value (plain scalars of three unambiguous lexical classes; enum values in bare, mapping and tagged notation; block and flow), then perturbed at one random node by one of 20 perturbations (null / scalar / sequence / mapping / bare variant / variant mapping / two-variant mapping in place, extra / missing / first-missing element, extra / missing entry, renamed key, extra variant entry, sequence<->mapping, quoted scalar, scalar / sequence payload under a kept `!Variant` tag) or left intact. Oracle: a reference interpreter over the document AST (self-checked against the raw parser events) and the type, written from DESIGN.md Appendix A, answers Must(pattern) / MustErr / Free(pattern): an accepted value must match the position-faithful pattern (holes only where the documentation is silent), a MustErr document must be rejected, a Must document must be accepted. Every document is also read through from_str / from_slice / from_reader (same outcome as with_deserializer_from_str) and through read / from_multiple (one document gives at most one item, nothing follows an error, the item is the reference outcome). Non-trivial: perturbed documents, and matching documents with an enum or tuple inside a sequence / map.".into()
+        "cases = (run-time type description, document). Types from a schema grammar (bool / int / string / option / unit / sequence / tuple / tuple struct / newtype / map / struct with and without deny_unknown_fields / enum with all four variant kinds, depth <= 4); the document is first generated from the type and a value (plain scalars of three unambiguous lexical classes; enum values in bare, mapping and tagged notation; block and flow), then perturbed at one random node by one of 21 perturbations (null / scalar / sequence / mapping / bare variant / variant mapping / two-variant mapping in place, extra / missing / first-missing element, extra / missing entry, renamed key, extra variant entry, sequence<->mapping, quoted scalar, scalar / sequence / null payload under a kept `!Variant` tag) or left intact. Oracle: a reference interpreter over the document AST (self-checked against the raw parser events) and the type, written from DESIGN.md Appendix A, answers Must(pattern) / MustErr / Free(pattern): an accepted value must match the position-faithful pattern (holes only where the documentation is silent), a MustErr document must be rejected, a Must document must be accepted. Every document is also read through from_str / from_slice / from_reader (same outcome as with_deserializer_from_str) and through read / from_multiple (one document gives at most one item, nothing follows an error, the item is the reference outcome). Non-trivial: perturbed documents, and matching documents with an enum or tuple inside a sequence / map.".into()
     }
     fn assumptions() -> Vec<String> {
         vec![
